@@ -263,6 +263,10 @@ func (f *FSM) MustCopyWithState(state State) *FSM {
 				exists = true
 			}
 		}
+		// Finish states (e.g. cancelled ones) are never a source, but a machine can be restored in them
+		if f.IsFinState(state) {
+			exists = true
+		}
 		if !exists {
 			panic(fmt.Sprintf("cannot set state, not exists  \"%s\" for \"%s\"", state, f.name))
 		}
@@ -454,6 +458,15 @@ func (f *FSM) StatesList() (states []State) {
 		for state := range allStates {
 			states = append(states, state)
 		}
+	}
+
+	return
+}
+
+// FinStatesList returns finish states of the machine (states which are never used as a source)
+func (f *FSM) FinStatesList() (states []State) {
+	for state := range f.finStates {
+		states = append(states, state)
 	}
 
 	return
